@@ -70,16 +70,20 @@ class Tree(object):
         w('root2/a.txt', b'alpha from the second search path')
         w('root2/only2.txt', b'only in second')
         w('root2/sub/e.txt', b'echo')
+        w('root/frac7.txt', b'mtime with a fraction that rounds up', MTIME + 0.7)
+        w('root/frac3.txt', b'mtime with a fraction that rounds down', MTIME + 0.3)
+        w('root/clash/inside.txt', b'a directory called clash in the first root')
+        w('root2/clash', b'a regular file called clash in the second root')
         w('fb/a.txt', b'FALLBACK a')
         w('fb/sub/c.txt', b'FALLBACK c')
         w('fb/fbonly.txt', b'FALLBACK only')
 
-    def write(self, rel, content):
+    def write(self, rel, content, mtime=MTIME):
         p = os.path.join(self.base, rel)
         os.makedirs(os.path.dirname(p), exist_ok=True)
         with open(p, 'wb') as f:
             f.write(content)
-        os.utime(p, (MTIME, MTIME))
+        os.utime(p, (mtime, mtime))
         self.files[rel] = content
 
     def lookup(self, rel, roots):
@@ -316,7 +320,7 @@ def run_paths(acc, tree, cfg, depth, i, n, counter):
     w = World(tree, prefix, mode, two)
     alphabet = seg_alphabet(tree)
     names = ['a.txt', 'b.bin', 'empty.dat', 'sp ace.txt', u'\xe9.txt', 'dots.in.name.tar.gz', 'noext', 'binnoext',
-             'page.html', 'only2.txt', 'fbonly.txt', '..x']
+             'page.html', 'only2.txt', 'fbonly.txt', '..x', 'clash', 'frac7.txt']
     seqs = [[nm] for nm in names] + [['sub', 'c.txt'], ['sub', 'deep', 'd.txt'], ['sub', 'e.txt']]
     gen = itertools.chain(seqs, *[itertools.product(alphabet, repeat=d) for d in range(0, depth + 1)])
     for segs in gen:
@@ -343,7 +347,7 @@ def run_paths(acc, tree, cfg, depth, i, n, counter):
             acc.sample({'config': list(cfg), 'segments': segs, 'status': res.code})
 
 
-COND_FILES = [['a.txt'], ['sub', 'c.txt'], ['noext'], ['b.bin'], ['only2.txt']]
+COND_FILES = [['a.txt'], ['sub', 'c.txt'], ['noext'], ['b.bin'], ['only2.txt'], ['frac7.txt'], ['frac3.txt']]
 
 
 def http_date(ts):
@@ -357,6 +361,8 @@ def run_conditional(acc, tree, cfg):
         base = wsgi.call(w.app, w.path_for(segs), 'GET')
         lm = base.header('Last-Modified')
         for label, ims, want in (('before', http_date(MTIME - 100), 200), ('exact', lm, 304), ('after', http_date(MTIME + 100), 304)):
+            if lm is None:
+                continue
             if base.code != 200:
                 continue
             res = wsgi.call(w.app, w.path_for(segs), 'GET', headers={'If-Modified-Since': ims})
